@@ -49,6 +49,28 @@ def representation_gap(text):
     return None
 
 
+def _fold_h_on_dummies(m):
+    """RDKit keeps hydrogens on wildcard atoms explicit; fold them into the wildcard's hydrogen count so that
+    [*][H] and [*H] are the same molecule for the comparison."""
+    from rdkit import Chem
+    todo = [a.GetIdx() for a in m.GetAtoms() if a.GetAtomicNum() == 1 and a.GetIsotope() == 0 and a.GetDegree() == 1
+            and a.GetNeighbors()[0].GetAtomicNum() == 0]
+    if not todo:
+        return m
+    rw = Chem.RWMol(m)
+    for idx in sorted(todo, reverse=True):
+        nb = rw.GetAtomWithIdx(idx).GetNeighbors()[0]
+        nb.SetNoImplicit(True)
+        nb.SetNumExplicitHs(nb.GetNumExplicitHs() + 1)
+        rw.RemoveAtom(idx)
+    out = rw.GetMol()
+    try:
+        Chem.SanitizeMol(out)
+    except Exception:
+        pass
+    return out
+
+
 def _smiles_without_stereo(m):
     """canonical SMILES that ignores stereo descriptors (the graph layer does not carry them) but keeps isotope labels."""
     from rdkit import Chem
@@ -101,6 +123,7 @@ def unmapped_canonical(smi):
         m = Chem.RemoveHs(m)
     except Exception:
         pass
+    m = _fold_h_on_dummies(m)
     return _smiles_without_stereo(m)
 
 
